@@ -103,6 +103,17 @@ def run(ctx):
     for name, data, _ in base:
         for k in range(2 if q else 8):
             sources.append(("%s~mut%d" % (name, k), mutate(data, rnd), True))
+    # files whose explicit slot chunks make two in-links claim the same out slot of one source (a written SLnK zeroed):
+    # loadable, so inside the quantifier
+    from .. import links
+    for i in range(4 if q else 60):
+        n = rnd.randrange(3, 7)
+        p = links.make_project(n, rnd, links.simple_classes()[:6])
+        src = p.modules[rnd.randrange(1, n)]
+        p.connect(src, [m for m in p.modules[1:] if m is not src][:rnd.randrange(2, n - 1)])
+        ch = tlv.split(p.read())
+        if any(cid == b"SLnK" for cid, _ in ch):
+            sources.append(("slotclaim%d~zeroslots" % i, tlv.join([(cid, bytes(len(pl)) if cid == b"SLnK" else pl) for cid, pl in ch]), True))
     traces = []
     skipped = 0
     for name, data, mutated in sources:
